@@ -512,6 +512,14 @@ def gen(rng, tier):
         ops.append(f"split with {lst(samples)} {rng.choice([0, n, 2 * n, rng.range(0, n)])} {rng.range(0, 1 << 20)}")
         w = weights_with_zeros(rng, n)
         ops.append(f"split wwith {lst(samples)} {lst(w, f2h)} {rng.choice([n, rng.range(0, 2 * n)])} {rng.range(0, 1 << 20)}")
+    # few draws out of many (count well below n / 16): any 'fast path' for sparse selections must still return DISTINCT indices
+    # (seeded change C12-h2: rejection of repeats by a binary search over an unsorted prefix); count^2 / (2 n) ~ 1..5 expected
+    # collisions of independent draws per case
+    rs = rng.fork()
+    for _ in range(120 if thorough else 24):
+        n = rs.choice([400, 800, 1600, 3200, rs.range(200, 5000)])
+        count = max(3, min(n // 16 - 1, int((rs.uniform(2.0, 10.0) * n) ** 0.5)))
+        ops.append(f"split without {lst(make_samples(rs, n))} {count} {rs.range(0, 1 << 20)}")
     # a single positive weight: every draw must hit it
     for n in range(1, 12):
         w = [0.0] * n
